@@ -29,12 +29,12 @@ run >/tmp/sv_clean.txt; rc_clean=$?
 git apply "$P" || { echo "patch does not apply"; rm -f $copied; exit 2; }
 run >/tmp/sv_patched.txt; rc_patched=$?
 rm -f $copied
-$GO build ./... >/tmp/sv_build.txt 2>&1; rc_build=$?
-timeout 600 $GO test -vet=off -count=1 ./... >/tmp/sv_suite.txt 2>&1; rc_suite=$?
+$GO build $($GO list ./... 2>/dev/null | grep -v "/seed[0-9]*$") >/tmp/sv_build.txt 2>&1; rc_build=$?
+timeout 600 $GO test -vet=off -count=1 $($GO list ./... 2>/dev/null | grep -v "/seed[0-9]*$") >/tmp/sv_suite.txt 2>&1; rc_suite=$?
 git checkout -q -- .
 echo "demo: clean rc=$rc_clean patched rc=$rc_patched | build rc=$rc_build suite rc=$rc_suite"
 if [ $rc_clean -ne 0 ] || [ $rc_patched -eq 0 ] || [ $rc_build -ne 0 ] || [ $rc_suite -ne 0 ]; then echo "SEED NOT CONFIRMED"; tail -n 5 /tmp/sv_clean.txt /tmp/sv_patched.txt /tmp/sv_suite.txt | cut -c1-200; exit 4; fi
 mkdir -p /verif/seeded/$SID; cp "$P" /verif/seeded/$SID/patch.diff; for d in $demos; do cp "$d" /verif/seeded/$SID/; done; [ -f "$WT/$SD/README.txt" ] && cp "$WT/$SD/README.txt" /verif/seeded/$SID/README.txt
 tail -3 /tmp/sv_patched.txt | cut -c1-200 > /verif/seeded/$SID/demo_output_with_patch.txt
 echo "SEED CONFIRMED -> /verif/seeded/$SID (demo package ./$dest/)"
-for ID in "$@"; do /verif/lib/seedtest.sh /verif/seeded/$SID/patch.diff $ID | cut -c1-260; done
+for ID in "$@"; do /verif/lib/seedns.sh /verif/seeded/$SID/patch.diff $ID | cut -c1-260; done
